@@ -8,11 +8,15 @@ child, so "the parent is not modified" is the statement that no operation change
 
 Abstractions (kept out of the model on purpose):
 * node payloads (arguments, probabilities, locations, variable counts) — a node keeps its kind, its predicate
-  signature and the node indices it refers to;
+  signature, the node indices it refers to and, for a choice node, the group id of its annotated disjunction;
 * `ClauseIndex` (argument indexing of a define node's children, clausedb.py:1009) is a plain list (C13 models it);
 * `is_reserved_name` (clausedb.py:146) compares a string with a fresh set by identity and is therefore always
   `False`: the AccessError of clausedb.py:277 cannot be raised and is not modelled;
 * scoping (`_scope_term`) is the identity for the unscoped statements this model is used for.
+
+`getNode`/`resolve` and `adGroup` mirror the code *with* repo_patches/C29_grandchild_redirect.diff and
+C29_ad_group_id.diff; `getNodeV0`, `defsV0`, `adGroupV0` mirror the code as written before (commit 9130489), for which
+the C29 properties are refuted (Properties/C29.lean). Every other definition is the same for both.
 
 Python exceptions are explicit `Err` results. Core Lean only (no Mathlib) so the driver links.
 -/
